@@ -59,6 +59,13 @@ def grammar(tier):
              ("rot_len3", R.from_rotvec([(0.1, 0.2, 0.3), (0, 0, 1), (1, 0, 0)])),
              ("ff_ok", _ff_ok), ("ff_badsig", _ff_badsig), ("ff_badshape", _ff_badshape), ("ff_list", _ff_list)]
     vals += [(f"ffgen_{b}_{h}", ff_gen(b, h)) for b in FF_BEHAVIOURS for h in FF_BEHAVIOURS]
+    # face index tables of the 4-vertex mesh with ONE entry replaced by an index below, at and beyond either end of the range
+    _f0 = [(0, 2, 1), (0, 1, 3), (0, 3, 2), (1, 2, 3)]
+    for k in (-40, -6, -5, -4, -1, 3, 4, 5, 40):
+        for pos in ((0, 0), (3, 2)):
+            f = [list(t) for t in _f0]
+            f[pos[0]][pos[1]] = k
+            vals += [(f"fidx{k}at{pos[0]}{pos[1]}:list", f), (f"fidx{k}at{pos[0]}{pos[1]}:ndi", np.array(f, dtype=int))]
     # strings for enumerations
     vals += [("left", "left"), ("right", "right"), ("Left", "Left"), ("up", "up")]
     return vals
@@ -153,6 +160,7 @@ def arr(v):
 
 
 AMBIG = object()
+REFUSE = object()   # must not be accepted; which error is raised at creation is not prescribed
 
 
 def vec(n):
@@ -220,12 +228,14 @@ def meshfaces(v):
     a = arr(v)
     if np.any(a != np.round(a)):
         return False                           # a face is a triple of vertex INDICES
-    if np.any(a < 0) or np.any(a > 3):
-        return AMBIG                           # out-of-range / negative indices: excluded
+    if np.any(a < -4) or np.any(a > 3):
+        return REFUSE                          # refers to a vertex that does not exist (4 vertices): must be refused at creation
+    if np.any(a < 0):
+        return AMBIG                           # negative indices within range (numpy semantics): excluded
     return True
 
 
-CTOR_ONLY = {("TriangularMesh", "vertices"), ("TriangularMesh", "faces")}
+CTOR_ONLY = {("TriangularMesh", "vertices"), ("TriangularMesh", "faces"), ("TriangularMeshSkip", "vertices"), ("TriangularMeshSkip", "faces")}
 
 
 def pixel(v):
@@ -264,6 +274,10 @@ def classes():
         "TriangularMesh": (magpy.magnet.TriangularMesh, dict(vertices=TV, faces=[(0, 2, 1), (0, 1, 3), (0, 3, 2), (1, 2, 3)], polarization=pol,
                                                              check_open="ignore", check_disconnected="ignore",
                                                              check_selfintersecting="ignore", reorient_faces="ignore")),
+        # the same class with every optional mesh check switched off by the user: the input checks are not optional
+        "TriangularMeshSkip": (magpy.magnet.TriangularMesh, dict(vertices=TV, faces=[(0, 2, 1), (0, 1, 3), (0, 3, 2), (1, 2, 3)], polarization=pol,
+                                                                 check_open="skip", check_disconnected="skip",
+                                                                 check_selfintersecting="skip", reorient_faces="skip")),
     }
 
 
@@ -284,6 +298,8 @@ for _c in ("Cuboid", "Cylinder", "CylinderSegment", "Sphere", "Tetrahedron", "Tr
 SPEC[("CustomSource", "field_func")] = fieldfunc
 SPEC[("TriangularMesh", "vertices")] = meshverts
 SPEC[("TriangularMesh", "faces")] = meshfaces
+SPEC[("TriangularMeshSkip", "vertices")] = meshverts
+SPEC[("TriangularMeshSkip", "faces")] = meshfaces
 SPEC[("TriangularMesh", "polarization")] = vec(3)
 SPEC[("TriangularMesh", "position")] = path
 
@@ -312,6 +328,9 @@ def check_one(task):
     valid = SPEC[(cls, attr)](v)
     if valid is AMBIG:
         return {"ambiguous": True, "problems": []}
+    refuse_any = valid is REFUSE    # not a format / geometry error of the statement's list: any error raised at creation is a refusal
+    if refuse_any:
+        valid = False
     problems = []
     results = {}
     for via in (("ctor",) if (cls, attr) in CTOR_ONLY else ("ctor", "setter", "copy")):
@@ -358,7 +377,7 @@ def check_one(task):
                     pass
                 except Exception as e:
                     problems.append((f"accepted-object-fails-later-{type(e).__name__}", via))
-            elif got != "rejected":
+            elif got != "rejected" and not refuse_any:
                 problems.append((f"wrong-exception-{got[4:]}", via))
             if got != "ok" and via == "setter" and snap(o) != before:
                 problems.append(("rejected-assignment-changed-object", via))
